@@ -40,7 +40,7 @@ RULE = (
 )
 ASSUMPTIONS = [
     "operations on a client that is not connected are outside the statement: their outcome is not judged (the flag still is)",
-    "connect while already connected: only the flag and the newest connection are judged",
+    "connect while already connected: only the flag and the newest connection are judged; a refused connect while connected may or may not end the session (flag adopted as observed), the socket is judged at the next disconnect",
     "socketpair stands in for TCP except in the real-TCP subset",
 ]
 
@@ -64,7 +64,7 @@ def depth(tier):
 
 
 def enabled(model, a):
-    if a in ("refused", "ctx_refused"):
+    if a == "ctx_refused":
         return not model["connected"]
     if a in ("op_ok", "op_garbage", "op_badarg"):
         return model["connected"]
@@ -223,9 +223,15 @@ class World:
             if out[0] != "exc" or not isinstance(out[1], OSError):
                 res.violation("refused-connect-does-not-raise", case, f"{tag}: refused connect -> {out[0]} {out[1]!r}", "OSError", repr(out[1]))
                 ok = False
+            if m["connected"] and isinstance(api.connected, bool):
+                # a refused connect on a client that is connected: the statement does not say whether the open session
+                # survives, so the flag is adopted as observed; the session's socket is still judged at the next disconnect
+                m.update(connected=api.connected)
         elif a in ("op_ok", "op_garbage", "op_badarg"):
             out = self.do_op(a)
-            if not m["dropped"]:
+            if not m["connected"]:
+                pass  # the session ended in a way the statement leaves open (refused connect while connected): not judged
+            elif not m["dropped"]:
                 want = {"op_ok": "ok", "op_garbage": "RuntimeError", "op_badarg": "ValueError"}[a]
                 got = "ok" if out[0] == "ok" else (type(out[1]).__name__ if out[0] == "exc" else out[0])
                 if got != want:
